@@ -776,3 +776,212 @@ pub fn rule_for(property: &str) -> String {
 pub fn sample_history(rep: &mut Report, v: Value) {
     rep.sample(v);
 }
+
+// ---------------------------------------------------------------------------------------------
+// Concurrent leg (C01, C04): several administrative clients work on one broker at the same time
+// (multi-thread runtime) while a reader keeps fetching every served view. The HTTP server runs
+// requests concurrently, so the broker's own locking is what keeps every served view consistent.
+
+pub async fn run_concurrent_one(rep: &mut Report, property: &str, sub_seed: u64) {
+    use crate::broker_mon::{canonical_proxy, check_cluster_view, check_proxy_view};
+    use std::sync::atomic::AtomicBool;
+    let mut rng = Rng::new(sub_seed);
+    let cfg = BrokerCfg { migration_limit: *rng.pick(&LIMITS), failure_ttl: 600, failure_quorum: 1, ordered: false };
+    let svc = crate::broker::new_service(&cfg, "/nonexistent/verif-concurrent.json");
+    let host_num = rng.urange(3, 5);
+    let per_host = rng.urange(4, 12);
+    let mut addrs: Vec<String> = vec![];
+    for h in 0..host_num {
+        for i in 0..per_host {
+            let host = crate::broker::host_name(h);
+            let addr = crate::broker::proxy_addr(&host, i);
+            let payload = json!({"proxy_address": addr, "nodes": crate::broker::node_addrs(&host, i), "host": host, "index": null});
+            if let Ok(pl) = serde_json::from_value(payload) {
+                let _ = svc.add_proxy(pl).await;
+            }
+            addrs.push(addr);
+        }
+    }
+    let names = ["ca", "cb", "cc"];
+    let _ = svc.add_cluster(names[0].to_string(), 4).await;
+    let done = Arc::new(AtomicBool::new(false));
+    let n_writers = rng.urange(2, 4);
+    let ops_per_writer = rng.urange(20, 50);
+    let log: Arc<parking_lot::Mutex<Vec<String>>> = Default::default();
+    let mut writers = vec![];
+    for w in 0..n_writers {
+        let svc = svc.clone();
+        let addrs = addrs.clone();
+        let log = log.clone();
+        let mut wr = Rng::new(sub_seed ^ ((w as u64 + 1) * 0x9e37));
+        let extra_host = crate::broker::host_name(w % host_num);
+        writers.push(tokio::spawn(async move {
+            for k in 0..ops_per_writer {
+                let name = wr.pick(&names).to_string();
+                let what = match wr.below(12) {
+                    0 | 1 => format!("add_cluster {} {:?}", name, svc.add_cluster(name.clone(), *wr.pick(&[4usize, 8, 12])).await.map_err(|e| e.to_string())),
+                    2 => format!("remove_cluster {} {:?}", name, svc.remove_cluster(name.clone()).await.map_err(|e| e.to_string())),
+                    3 | 4 => {
+                        let mut m = std::collections::HashMap::new();
+                        m.insert("migration_scan_count".to_string(), format!("{}", 1 + wr.below(50)));
+                        format!("change_config {} {:?}", name, svc.change_config(name.clone(), m).await.map_err(|e| e.to_string()))
+                    }
+                    5 => format!("balance {} {:?}", name, svc.balance_masters(name.clone()).await.map_err(|e| e.to_string())),
+                    6 => {
+                        let a = wr.pick(&addrs).clone();
+                        format!("replace_failed_proxy {} {:?}", a, svc.replace_failed_proxy(a.clone()).await.map(|p| p.map(|p| p.get_address().to_string())).map_err(|e| e.to_string()))
+                    }
+                    7 => {
+                        let i = 100 + w * 100 + k;
+                        let payload = json!({"proxy_address": crate::broker::proxy_addr(&extra_host, i), "nodes": crate::broker::node_addrs(&extra_host, i), "host": extra_host, "index": null});
+                        match serde_json::from_value(payload) {
+                            Ok(pl) => format!("add_proxy {:?}", svc.add_proxy(pl).await.map_err(|e| e.to_string())),
+                            Err(e) => e.to_string(),
+                        }
+                    }
+                    8 => format!("auto_add_nodes {} {:?}", name, svc.auto_add_nodes(name.clone(), 4).await.map(|_| ()).map_err(|e| e.to_string())),
+                    9 => format!("migrate_slots {} {:?}", name, svc.migrate_slots(name.clone()).await.map_err(|e| e.to_string())),
+                    10 => format!("auto_delete_free_nodes {} {:?}", name, svc.auto_delete_free_nodes(name.clone()).await.map_err(|e| e.to_string())),
+                    _ => {
+                        let a = wr.pick(&addrs).clone();
+                        let host = a.split(':').next().unwrap_or("").to_string();
+                        let i: usize = a.rsplit(':').next().and_then(|p| p.parse::<usize>().ok()).map(|p| p - 7000).unwrap_or(0);
+                        let payload = json!({"proxy_address": a, "nodes": crate::broker::node_addrs(&host, i), "host": host, "index": null});
+                        match serde_json::from_value(payload) {
+                            Ok(pl) => format!("re-register {} {:?}", a, svc.add_proxy(pl).await.map_err(|e| e.to_string())),
+                            Err(e) => e.to_string(),
+                        }
+                    }
+                };
+                log.lock().push(format!("writer {}: {}", w, what));
+                if wr.chance(1, 2) {
+                    tokio::task::yield_now().await;
+                }
+            }
+        }));
+    }
+    let reader = {
+        let svc = svc.clone();
+        let done = done.clone();
+        tokio::spawn(async move {
+            // address -> (epoch, canonical content) last seen; findings as (signature, text)
+            let mut last: std::collections::BTreeMap<String, (u64, String)> = Default::default();
+            let mut last_global = 0u64;
+            let mut findings: Vec<(String, String)> = vec![];
+            let (mut reads, mut changes) = (0u64, 0u64);
+            loop {
+                let finished = done.load(Ordering::SeqCst);
+                let g = svc.get_epoch().await.unwrap_or(0);
+                if g < last_global {
+                    findings.push(("global-epoch-decreased".into(), format!("get_epoch returned {} after {}", g, last_global)));
+                }
+                last_global = g.max(last_global);
+                for a in svc.get_proxy_addresses(None, None).await.unwrap_or_default() {
+                    if let Ok(Some(p)) = svc.get_proxy_by_address(&a).await {
+                        reads += 1;
+                        for (clause, msg) in check_proxy_view(&p) {
+                            findings.push((format!("proxy-view:{}", clause), msg));
+                        }
+                        let now = (p.get_epoch(), canonical_proxy(&p));
+                        if let Some(prev) = last.get(&a) {
+                            if now.0 < prev.0 {
+                                findings.push(("proxy-epoch-decreased".into(), format!("{}: epoch {} served after {}", a, now.0, prev.0)));
+                            } else if now.0 == prev.0 && now.1 != prev.1 {
+                                findings.push(("changed-without-new-epoch".into(), format!("{}: two different views served with epoch {}: [{}] then [{}]", a, now.0, prev.1.chars().take(300).collect::<String>(), now.1.chars().take(300).collect::<String>())));
+                            }
+                            if now.1 != prev.1 {
+                                changes += 1;
+                            }
+                        }
+                        last.insert(a, now);
+                    }
+                }
+                for n in svc.get_cluster_names(None, None).await.unwrap_or_default() {
+                    if let Ok(Some(c)) = svc.get_cluster_by_name(n.as_str()).await {
+                        reads += 1;
+                        for (clause, msg) in check_cluster_view(&c) {
+                            findings.push((format!("cluster-view:{}", clause), msg));
+                        }
+                    }
+                }
+                if finished {
+                    break;
+                }
+                tokio::task::yield_now().await;
+            }
+            (findings, reads, changes)
+        })
+    };
+    let mut panicked = false;
+    for w in writers {
+        if w.await.is_err() {
+            panicked = true;
+        }
+    }
+    done.store(true, Ordering::SeqCst);
+    let (findings, reads, changes) = match reader.await {
+        Ok(x) => x,
+        Err(_) => {
+            panicked = true;
+            (vec![], 0, 0)
+        }
+    };
+    rep.evaluations += 1;
+    rep.count("concurrent_histories", 1);
+    rep.count("concurrent_view_reads", reads);
+    rep.count("concurrent_view_changes_observed", changes);
+    let history = log.lock().clone();
+    rep.distinct(format!("conc|{}|{}|{}", n_writers, ops_per_writer, history.iter().map(|l| l.split_whitespace().nth(2).unwrap_or("").to_string()).collect::<Vec<_>>().join(",")).as_bytes());
+    let replay = json!({"sub_seed": sub_seed, "leg": "concurrent", "writers": n_writers, "operations_in_completion_order": history});
+    if panicked {
+        rep.violation(format!("{}:concurrent:panic", property), "a broker request or view query panicked while other requests were running".to_string(), replay.clone());
+    }
+    for (sig, text) in findings {
+        let mine = match property {
+            "C04" => sig.contains("epoch"),
+            "C01" => sig.contains("view:"),
+            _ => true,
+        };
+        if mine {
+            rep.violation(format!("{}:concurrent:{}", property, sig), text, replay.clone());
+        }
+    }
+    if rep.counter("concurrent_samples") < 1 {
+        rep.count("concurrent_samples", 1);
+        rep.sample(replay);
+    }
+}
+
+pub fn run_concurrent(rep: &mut Report, property: &'static str, n: u64, threads: usize) {
+    let next = Arc::new(AtomicU64::new(0));
+    let seed = rep.seed ^ 0xc0c0;
+    let mut handles = vec![];
+    for _ in 0..threads {
+        let next = next.clone();
+        let tier = rep.tier.clone();
+        handles.push(std::thread::spawn(move || {
+            let mut local = Report::new(property, &tier, seed);
+            let rt = match tokio::runtime::Builder::new_multi_thread().worker_threads(4).enable_all().build() {
+                Ok(rt) => rt,
+                Err(_) => {
+                    local.inconclusive("concurrent leg: cannot build runtime");
+                    return local;
+                }
+            };
+            loop {
+                let i = next.fetch_add(1, Ordering::SeqCst);
+                if i >= n {
+                    break;
+                }
+                rt.block_on(run_concurrent_one(&mut local, property, Rng::sub_seed(seed, i)));
+            }
+            local
+        }));
+    }
+    for h in handles {
+        match h.join() {
+            Ok(l) => rep.merge(l),
+            Err(_) => rep.inconclusive("concurrent leg: worker thread panicked"),
+        }
+    }
+}
